@@ -322,6 +322,10 @@ fn decide(atom: Atom) -> bool {
     CTX.with(|c| {
         let mut c = c.borrow_mut();
         c.pending_narrow.clear();
+        // the same atom has the same truth value throughout one execution
+        if let Some((_, d)) = c.taken.iter().find(|(a, _)| *a == atom) {
+            return *d;
+        }
         let k = c.taken.len();
         let d = if k < c.prefix.len() { c.prefix[k] } else { true };
         c.taken.push((atom, d));
